@@ -135,9 +135,14 @@ func genRandomTree(c *Ctx, stream string, idx int, maxDNF int64) *TreeCase {
 		if r.Chance(1, 10) {
 			nLeaves += r.Intn(12)
 		}
+		if r.Chance(1, 25) && k >= 2 {
+			// long chains (30..120 terms over the same small pool): code that switches strategy above a length threshold
+			shape = gen.ShapeLongChain
+			nLeaves = 30 + r.Intn(90)
+		}
 		pool := randomPool(c.U, r, k)
 		tree := gen.RandomTree(r, shape, nLeaves, k)
-		if tree.DNFSize() > maxDNF || tree.Depth() > 24 {
+		if tree.DNFSize() > maxDNF || (tree.Depth() > 24 && shape != gen.ShapeLongChain) {
 			continue
 		}
 		paren := r.Intn(3)
@@ -151,7 +156,8 @@ func genRandomTree(c *Ctx, stream string, idx int, maxDNF int64) *TreeCase {
 }
 
 func (c *Ctx) countTreeCoverage(tc *TreeCase) {
-	c.Inc("shape_" + []string{"random", "left_chain", "right_chain", "balanced", "or_and_or", "andchain_x_or"}[tc.Shape%gen.NumShapes])
+	c.Inc("shape_" + []string{"random", "left_chain", "right_chain", "balanced", "or_and_or", "andchain_x_or", "long_chain"}[tc.Shape%(gen.NumShapes+1)])
+	c.CountIf(tc.Tree.DNFSize() >= 64, "trees_with_64plus_alternatives")
 	if tc.Tree.HasOrUnderAndUnderOr() {
 		c.Inc("trees_or_under_and_under_or")
 	}
